@@ -257,7 +257,7 @@ def preprocess_image_tff(image: np.ndarray, crop_height: int, crop_width: int,
   num_pixels = np.prod(image.shape[-3:], dtype=np.float32)
   image_mean = np.mean(image, axis=(-1, -2, -3), keepdims=True)
   image_std = np.std(image, axis=(-1, -2, -3), keepdims=True)
-  image_adjusted_std = np.maximum(image_std, np.sqrt(num_pixels))
+  image_adjusted_std = np.maximum(image_std, 1.0 / np.sqrt(num_pixels))
   return (image - image_mean) / image_adjusted_std
 
 
